@@ -188,7 +188,9 @@ GhostInit == [icfg |-> CS!Empty,    \* the configuration obtained by applying ex
               clean |-> TRUE,       \* no failure verdict has left a trace so far (main process, workers, saved state)
               okApplied |-> TRUE,   \* every OK verdict so far: each worker alive at dispatch acknowledged and applied
               verdicts |-> 0,       \* number of final verdicts delivered
-              last |-> "none"]      \* the last final verdict
+              last |-> "none",      \* the last final verdict
+              pred |-> <<>>,        \* what the fixed schedule `Settle` predicts for the operation in progress (CoreOf)
+              predValid |-> FALSE]  \* ... still meaningful (no environment step since the operation was sent)
 
 Alive(T, w) == T.wst[w] = "alive"
 RealAlive(T) == {w \in RealWorkers : Alive(T, w)}
@@ -332,11 +334,43 @@ HubStartWorker(T, w) ==
             !.task = IF T.task.st = "live" THEN [@ EXCEPT !.booted = @ \cup {w}] ELSE @]
 
 ---------------------------------------------------------------------------
+(* The fixed schedule of the internal steps used by the generator and the trace spec *)
+
+\* a fixed order of the worker ids (strings are not ordered in TLC)
+WOrder == CHOOSE q \in [1..Cardinality(Workers) -> Workers] : \A i, j \in DOMAIN q : i # j => q[i] # q[j]
+FirstW(P(_)) == LET idx == {i \in DOMAIN WOrder : P(WOrder[i])} IN
+                IF idx = {} THEN "none" ELSE WOrder[CHOOSE i \in idx : \A j \in idx : i <= j]
+
+\* one internal step, the first enabled one in a fixed priority order; T unchanged when none is enabled
+InternalEnabled(T) ==
+  \/ HubHandleClientRequestEn(T) \/ HubFinishTaskEn(T) \/ HubTimeoutTaskEn(T)
+  \/ \E w \in Workers : WorkerHandleEn(T, w) \/ HubHandleWorkerResponseEn(T, w) \/ HubHandleWorkerCloseEn(T, w)
+InternalStep(T) ==
+  IF HubHandleClientRequestEn(T) THEN HubHandleClientRequest(T)
+  ELSE LET wh == FirstW(LAMBDA w : WorkerHandleEn(T, w))
+           wr == FirstW(LAMBDA w : HubHandleWorkerResponseEn(T, w))
+           wc == FirstW(LAMBDA w : HubHandleWorkerCloseEn(T, w))
+       IN IF wh # "none" THEN WorkerHandle(T, wh)
+          ELSE IF wr # "none" THEN HubHandleWorkerResponse(T, wr)
+          ELSE IF wc # "none" THEN HubHandleWorkerClose(T, wc)
+          ELSE IF HubFinishTaskEn(T) THEN HubFinishTask(T)
+          ELSE IF HubTimeoutTaskEn(T) THEN HubTimeoutTask(T)
+          ELSE T
+RECURSIVE Settle(_)
+Settle(T) == IF InternalEnabled(T) THEN Settle(InternalStep(T)) ELSE T
+
+\* what an operation leaves behind, for comparing schedules (channels may still hold stale answers)
+CoreOf(T) == <<T.mcfg, T.wcfg, T.wpx, T.wst, T.hview, T.saved, T.ghost.icfg, T.ghost.last, T.ghost.clean, T.ghost.allOk>>
+
+---------------------------------------------------------------------------
 (* Actions *)
 
 NoHist == UNCHANGED hist
 
-Client_Send(op) == /\ ops < MaxOps /\ ClientSendEn(S, op) /\ Set(ClientSend(S, op))
+Client_Send(op) == /\ ops < MaxOps /\ ClientSendEn(S, op)
+                   /\ Set([ClientSend(S, op) EXCEPT !.ghost.pred = CoreOf(Settle(ClientSend(S, op))),
+                                                      \* (a hang-up the hub has not handled yet races with the request)
+                                                      !.ghost.predValid = ~InternalEnabled(S)])
                    /\ ops' = ops + 1 /\ UNCHANGED faults /\ NoHist
 Hub_HandleClientRequest == HubHandleClientRequestEn(S) /\ Set(HubHandleClientRequest(S)) /\ UNCHANGED <<ops, faults>> /\ NoHist
 Worker_Handle(w) == WorkerHandleEn(S, w) /\ Set(WorkerHandle(S, w)) /\ UNCHANGED <<ops, faults>> /\ NoHist
@@ -344,9 +378,9 @@ Hub_HandleWorkerResponse(w) == HubHandleWorkerResponseEn(S, w) /\ Set(HubHandleW
 Hub_HandleWorkerClose(w) == HubHandleWorkerCloseEn(S, w) /\ Set(HubHandleWorkerClose(S, w)) /\ UNCHANGED <<ops, faults>> /\ NoHist
 Hub_FinishTask == HubFinishTaskEn(S) /\ Set(HubFinishTask(S)) /\ UNCHANGED <<ops, faults>> /\ NoHist
 Hub_TimeoutTask == HubTimeoutTaskEn(S) /\ Set(HubTimeoutTask(S)) /\ UNCHANGED <<ops, faults>> /\ NoHist
-Worker_Die(w) == /\ faults < MaxFaults /\ WorkerDieEn(S, w) /\ Set(WorkerDie(S, w))
+Worker_Die(w) == /\ faults < MaxFaults /\ WorkerDieEn(S, w) /\ Set([WorkerDie(S, w) EXCEPT !.ghost.predValid = FALSE])
                  /\ faults' = faults + 1 /\ UNCHANGED ops /\ NoHist
-Hub_StartWorker(w) == /\ faults < MaxFaults /\ HubStartWorkerEn(S, w) /\ Set(HubStartWorker(S, w))
+Hub_StartWorker(w) == /\ faults < MaxFaults /\ HubStartWorkerEn(S, w) /\ Set([HubStartWorker(S, w) EXCEPT !.ghost.predValid = FALSE])
                       /\ faults' = faults + 1 /\ UNCHANGED ops /\ NoHist
 Client_SaveState == Client_Send(OpSave)
 Client_LoadState == Client_Send(OpLoad)
@@ -374,7 +408,7 @@ Next == \/ Client_Command \/ Client_SaveState \/ Client_LoadState
 Spec == Init /\ [][Next]_vars
 
 MCView == <<mcfg, wcfg, wpx, wst, hview, m2w, w2m, req, task, saved, ops, faults,
-            [ghost EXCEPT !.verdicts = 0, !.last = "none"], tid>>
+            [ghost EXCEPT !.verdicts = 0], tid>>
 
 ---------------------------------------------------------------------------
 (* Properties *)
@@ -406,6 +440,9 @@ P_C08_Converges ==
      \A w \in RealAlive(S) : WView(wcfg[w]) = WView(mcfg) /\ wcfg[w] = mcfg
 \* C09: verdict OK only if every worker alive at dispatch acknowledged (and applied) every request of the task
 P_C09_OkMeansApplied == ghost.okApplied
+\* every interleaving of the internal steps of an operation ends where the fixed schedule `Settle` ends (the generator
+\* and the trace spec take that schedule; this invariant ties them to the interleaved semantics checked here)
+P_Confluent == (ghost.predValid /\ ~InternalEnabled(S)) => CoreOf(S) = ghost.pred
 \* the worker's proxies hold the listeners its configuration says (the quantity every refusal depends on)
 P_ProxiesFollowConfig ==
   (Deviations = {} /\ Quiescent(S) /\ Settled(S)) =>
@@ -415,29 +452,6 @@ P_ProxiesFollowConfig ==
 (* Generator (S -> I): a scripted, quiescent environment with a deterministic schedule of the internal     *)
 (* steps (they commute: workers are independent of each other).  `hist` records the script with what the   *)
 (* real system must show at every quiescent point.                                                         *)
-
-\* a fixed order of the worker ids (strings are not ordered in TLC)
-WOrder == CHOOSE q \in [1..Cardinality(Workers) -> Workers] : \A i, j \in DOMAIN q : i # j => q[i] # q[j]
-FirstW(P(_)) == LET idx == {i \in DOMAIN WOrder : P(WOrder[i])} IN
-                IF idx = {} THEN "none" ELSE WOrder[CHOOSE i \in idx : \A j \in idx : i <= j]
-
-\* one internal step, the first enabled one in a fixed priority order; T unchanged when none is enabled
-InternalEnabled(T) ==
-  \/ HubHandleClientRequestEn(T) \/ HubFinishTaskEn(T) \/ HubTimeoutTaskEn(T)
-  \/ \E w \in Workers : WorkerHandleEn(T, w) \/ HubHandleWorkerResponseEn(T, w) \/ HubHandleWorkerCloseEn(T, w)
-InternalStep(T) ==
-  IF HubHandleClientRequestEn(T) THEN HubHandleClientRequest(T)
-  ELSE LET wh == FirstW(LAMBDA w : WorkerHandleEn(T, w))
-           wr == FirstW(LAMBDA w : HubHandleWorkerResponseEn(T, w))
-           wc == FirstW(LAMBDA w : HubHandleWorkerCloseEn(T, w))
-       IN IF wh # "none" THEN WorkerHandle(T, wh)
-          ELSE IF wr # "none" THEN HubHandleWorkerResponse(T, wr)
-          ELSE IF wc # "none" THEN HubHandleWorkerClose(T, wc)
-          ELSE IF HubFinishTaskEn(T) THEN HubFinishTask(T)
-          ELSE IF HubTimeoutTaskEn(T) THEN HubTimeoutTask(T)
-          ELSE T
-RECURSIVE Settle(_)
-Settle(T) == IF InternalEnabled(T) THEN Settle(InternalStep(T)) ELSE T
 
 Observation(T) ==
   [main |-> CS!Proj(T.mcfg),
